@@ -3,6 +3,7 @@ package file
 import (
 	"bytes"
 	"encoding/base64"
+	"encoding/binary"
 	"encoding/hex"
 	"encoding/pem"
 	"fmt"
@@ -366,9 +367,14 @@ func UUIDValue(info Info, data []byte) (Info, error) {
 			info.Description = "UUID v5 (SHA1)"
 		case 6:
 			info.Description = "UUID v6 (reordered Gregorian time)"
-			t := time.Unix(u.Time().UnixTime()).UTC()
+			// RFC 9562 5.6: time_high (32 bits), time_mid (16), version, time_low (12); u.Time() reads the
+			// raw 64 bits including the version nibble, so reassemble the 60-bit timestamp here.
+			ts := uuid.Time(int64(binary.BigEndian.Uint32(u[0:4]))<<28 |
+				int64(binary.BigEndian.Uint16(u[4:6]))<<12 |
+				int64(binary.BigEndian.Uint16(u[6:8])&0x0fff))
+			t := time.Unix(ts.UnixTime()).UTC()
 			info.Attributes = append(info.Attributes, []Attribute{
-				{"Time (raw)", fmt.Sprintf("%d", u.Time())},
+				{"Time (raw)", fmt.Sprintf("%d", ts)},
 				{"Time (UTC)", t.Format("2006-01-02 15:04:05.9999999")},
 			}...)
 		case 7:
